@@ -28,7 +28,7 @@ func VerifC01_Api2() {
 	w := vInit()
 	vBindHealth()
 	verifBind("os.Stat", vStatDir)
-	scen := []string{"missing.sibling", "restarted.dep", "update.adds.both", "dep.stopped.before.ready.line", "dep.restarted.before.ready.line", "started.dep.stopped.while.pending", "started.dep.caught.by.shutdown.while.pending"}[verifChooseK("scenario", 7)]
+	scen := []string{"missing.sibling", "restarted.dep", "update.adds.both", "dep.stopped.before.ready.line", "dep.restarted.before.ready.line", "started.dep.stopped.while.pending", "started.dep.caught.by.shutdown.while.pending", "healthy.dep.in.its.restart.back-off"}[verifChooseK("scenario", 8)]
 	verifShape(scen)
 	var mu sync.Mutex
 	condMet := false // ground truth of the one condition under test
@@ -143,6 +143,33 @@ func VerifC01_Api2() {
 		_ = r.ShutDownProject()
 		<-runDone
 		verifAssert("web.never.launched", vGet(w.starts, "web") == 0)
+	case "healthy.dep.in.its.restart.back-off":
+		// dep (readiness probe, restart always) became ready, then its command died: it is in
+		// its restart back-off, not ready. web (process_healthy on dep) is started through the
+		// API at that moment: it must not be launched on the strength of the readiness of the
+		// previous incarnation
+		dep := vConf("dep", nil)
+		dep.ReadinessProbe = &health.Probe{Exec: &health.ExecProbe{Command: "check"}}
+		dep.RestartPolicy = types.RestartPolicyConfig{Restart: types.RestartPolicyAlways, BackoffSeconds: 5}
+		web := vConf("web", map[string]string{"dep": types.ProcessConditionHealthy})
+		web.Disabled = true
+		keep := vConf("keep", nil)
+		w.behav["dep"] = &vBehav{untilStop: []bool{true}, codes: []int{1}}
+		w.behav["web"] = &vBehav{untilStop: []bool{true}}
+		w.behav["keep"] = &vBehav{untilStop: []bool{true}}
+		r := vRunner(vProject(dep, web, keep), false)
+		go func() { runDone <- r.Run() }()
+		verifQuiesce()
+		verifAssert("probe.delivered", vProbeCheck("dep_ready_probe", true))
+		verifSettle()
+		vCrash("dep") // the command dies by itself (exit code 1)
+		verifSettle() // dep is waiting out its back-off: no command alive, not ready
+		verifAssert("dep.is.down", vGet(w.alive, "dep") == 0)
+		_ = r.StartProcess("web")
+		verifSettle()
+		verifAssert("web.not.launched.while.dep.is.down", vGet(w.starts, "web") == 0)
+		_ = r.ShutDownProject()
+		<-runDone
 	case "update.adds.both":
 		verifSymbolicMapOrderIn("UpdateProject")
 		verifSymbolicMapOrderIn("GetProcesses")
